@@ -65,8 +65,37 @@ def _prefix_in(name, prefixes):
     return any(name == p or name.startswith(p + "::") for p in prefixes)
 
 
+def _extend_allow(g, allow):
+    """helpers that are new since the reference tree and are called only from allowed functions (or from other such
+    helpers) belong to the allowed functions: extracting the body of a command arm does not widen who may reach a sink"""
+    from .. import inline
+    known = inline.load_known() or set()
+    allow = list(allow)
+    callers = {}
+    for m, cs in g.calls.items():
+        for c in cs:
+            callers.setdefault(c, set()).add(m)
+    def base(n):
+        return re.sub(r"(::\{closure#\d+\})+$", "", n)
+    changed = True
+    while changed:
+        changed = False
+        for n in list(g.funcs):
+            if not WS.match(n) or _prefix_in(n, allow) or "::{closure" in n:
+                continue
+            if norm(n) in known:
+                continue
+            cs = {base(c) for c in callers.get(n, set())} | {base(c) for k in g.funcs if k.startswith(n + "::{closure") for c in callers.get(k, set())}
+            cs.discard(n)
+            if cs and all(_prefix_in(c, allow) for c in cs):
+                allow.append(n)
+                changed = True
+    return allow
+
+
 def _who_may_call(ck, g, rule, sinks_re, allow, what, reviewed=None):
     reviewed = reviewed or {}
+    allow = _extend_allow(g, allow)
     roots = [f for f in g.funcs if WS.match(f) and not _prefix_in(f, allow)]
     # statics / constants of the workspace crates hold function pointers and closures that run later
     roots += [s_ for s_ in g.statics if WS.match(s_) and not _prefix_in(s_, allow)]
@@ -278,6 +307,13 @@ def _open_guard(ck, p):
     ck.saw(f)
     cfg = Cfg(f)
     opens = [(bi, t) for bi, t in f.calls() if (t["f"].get("inst") or "").startswith("open::")]
+    if not opens:
+        # the arm's body extracted into an awaited async helper: the helper call stands for the launch
+        from ..common import new_async_helper
+        for bi, t in f.calls():
+            body = new_async_helper(p, t)
+            if body is not None and any((tt["f"].get("inst") or "").startswith("open::") for _, tt in body.calls()):
+                opens.append((bi, t))
     ck.floor(rule, "open:: calls in execute_command", len(opens), 1)
     # string comparisons `<str as PartialEq>::eq(cmd, "Lit")` and the blocks their true edge leads to
     guards = _str_eq_guards(f)
